@@ -87,6 +87,7 @@ var externZeroOK = map[string]bool{
 	"encoding/base64.StdEncoding":                           true,
 	"encoding/base64.URLEncoding":                           true,
 	"github.com/gorilla/websocket.DefaultDialer":            true,
+	"os.Interrupt":                                          true, // only handed to the (no-op) os/signal.Notify
 }
 
 // externGlobal materialises globals of packages whose init is not run.
